@@ -36,6 +36,9 @@ def cpPercent : Nat := 37
 def cpDegree : Nat := 176
 def percentChars : List Nat := [112, 101, 114, 99, 101, 110, 116]
 def degChars : List Nat := [100, 101, 103]
+/-- `Δ` (U+0394) and the replacement text `delta_deg` -/
+def cpDelta : Nat := 916
+def deltaDegChars : List Nat := [100, 101, 108, 116, 97, 95, 100, 101, 103]
 
 /-- does the string contain `%` or `°` (digits of the code are code point + 1) -/
 def hasSpecialAux : Nat → Name → Bool
@@ -48,24 +51,36 @@ def hasSpecialAux : Nat → Name → Bool
 
 def hasSpecial (s : Name) : Bool := hasSpecialAux (Name.len s) s
 
-/-- the replacement itself -/
-def rewriteChars (cs : List Nat) : List Nat :=
-  cs.flatMap fun c =>
-    if Nat.beq c cpPercent then percentChars else if Nat.beq c cpDegree then degChars else [c]
+/-- the replacements themselves -/
+def rewriteOne (c : Nat) : List Nat :=
+  if Nat.beq c cpPercent then percentChars else if Nat.beq c cpDegree then degChars else [c]
 
-/-- `parse_unyt_expr`: `unit_expr.replace("%", "percent").replace("°", "deg")` (a string without
-    either character is returned as it is) -/
+def rewriteChars : List Nat → List Nat
+  | [] => []
+  | [c] => rewriteOne c
+  | c :: d :: r =>
+    if Nat.beq c cpDelta && Nat.beq d cpDegree then deltaDegChars ++ rewriteChars r
+    else rewriteOne c ++ rewriteChars (d :: r)
+
+/-- `parse_unyt_expr`: `unit_expr.replace("%", "percent").replace("Δ°", "delta_deg").replace("°", "deg")`
+    (one pass: no replacement text contains `%`, `°` or `Δ`; a string with neither `%` nor `°` is
+    returned as it is) -/
 def parserRewrite (s : Name) : Name :=
   if hasSpecial s then Name.ofChars (rewriteChars (Name.chars s)) else s
 
 /-- `_auto_positive_symbol` on a single NAME token: `none` when the parser passes the name through
     to one of its own globals (`Symbol`, `Integer`, `Float`, `Rational`, `sqrt`) — it is then not a
-    unit — else `inv_name_alternatives[name]`, falling back to the name itself -/
-def nameToSymbol (globals : List Name) (inv : NameTree) (name : Name) : Option Name :=
+    unit — else `inv_name_alternatives[name]`; on `KeyError`
+    `_rewritten_name_alternatives.get(name, name)`: the documented names that contain `°`, under the
+    spelling the `°`→`deg` rewrite gives them, and finally the name itself -/
+def nameToSymbol (globals : List Name) (inv : NameTree) (rewritten : Dict Name) (name : Name) : Option Name :=
   if memN name globals then none
   else match inv.get? name with
     | some (okey, _) => some okey
-    | none => some name
+    | none =>
+      match rewritten.get? name with
+      | some okey => some okey
+      | none => some name
 
 /-- `"da"` -/
 def daCode : Name := Name.cons 100 (Name.cons 97 Name.nil)
@@ -123,6 +138,8 @@ deriving DecidableEq, Repr
 structure Ctx (K : Type) where
   globals : List Name
   inv : NameTree
+  /-- `_parsing._rewritten_name_alternatives` -/
+  rewritten : Dict Name
   pre : PrefixesN K
   lut : LutN K
 
@@ -131,7 +148,7 @@ def mapEntry {K K' : Type} (f : K → K') (e : Entry K) : Entry K' :=
   { scale := f e.scale, dim := e.dim, offset := f e.offset, prefixable := e.prefixable }
 
 def Ctx.mapK {K K' : Type} (f : K → K') (c : Ctx K) : Ctx K' :=
-  { globals := c.globals, inv := c.inv,
+  { globals := c.globals, inv := c.inv, rewritten := c.rewritten,
     pre := c.pre.map f,
     lut := c.lut.map (mapEntry f) }
 
@@ -139,7 +156,7 @@ def Ctx.mapK {K K' : Type} (f : K → K') (c : Ctx K) : Ctx K' :=
 def stringReading {K : Type} (c : Ctx K) (name : Name) : Option Reading :=
   if Nat.beq name 0 then some .one else
   Name.force (parserRewrite name) fun nm =>
-  match nameToSymbol c.globals c.inv nm with
+  match nameToSymbol c.globals c.inv c.rewritten nm with
   | none => none
   | some s =>
     match lookupSplit c.pre c.lut s with
@@ -154,7 +171,7 @@ def oneEntry {K : Type} [OfNat K 0] [OfNat K 1] : Entry K :=
 def stringEntry {K : Type} [Mul K] [OfNat K 0] [OfNat K 1] (c : Ctx K) (name : Name) : Option (Entry K) :=
   if Nat.beq name 0 then some oneEntry else
   Name.force (parserRewrite name) fun nm =>
-  match nameToSymbol c.globals c.inv nm with
+  match nameToSymbol c.globals c.inv c.rewritten nm with
   | none => none
   | some s => lookupUnitSymbol c.pre c.lut s
 
